@@ -11,7 +11,7 @@
    segments [A-Za-z][0-9A-Za-z_]* — outside it Go's TypedName.Parts panics with InvalidCharactersInName). *)
 From Coq Require Import NArith Bool List.
 From PcoreV Require Import Model.Base Model.Loader Model.LoaderSpec Model.LoaderAdd Proofs.LoaderNames Proofs.LoaderProofs
-  Proofs.LoaderCorollaries Proofs.LoaderAddProofs Proofs.LoaderAddCorollaries.
+  Proofs.LoaderCorollaries Proofs.LoaderAddProofs Proofs.LoaderAddScoped Proofs.LoaderAddCorollaries.
 Import ListNotations.
 
 (* Refinement: for EVERY history of construct / define / load / load-entry / get-entry / has-entry / discover
@@ -135,8 +135,7 @@ Print Assumptions C12_relative_total.
    resolveTypeSet, typeSet.Resolve and objectType.Constructor make on the loaders — SetEntry, LoadEntry followed by
    `le == nil || le.Value() == nil`, NewTypeSetLoader — run on the model (`xstep`) and on the specification
    (`spec_xstep`).  A history is a list of `xop`: an operation of Model/Loader.v or px.AddTypes.  Domain `xop_wf`:
-   well-formed names and type sets, and the calls refer to L or to type-set loaders the same px.AddTypes created
-   (checked on every correspondence case). *)
+   well-formed names and type sets (checked on every correspondence case). *)
 
 (* Refinement for EVERY history with px.AddTypes: every result of the model, a cached miss projected to a miss,
    is the result of the write-once specification, where px.AddTypes binds type/<name> of every type that is not a
@@ -194,6 +193,13 @@ Theorem C12_addtypes_miss_not_sticky :
     xresult_after cfg (xs ++ [XOp (OLoad l n); XAddTypes l ts]) (XOp (OLoad l n)) = XR (RFound (Some v)).
 Proof. exact addtypes_miss_not_sticky. Qed.
 Print Assumptions C12_addtypes_miss_not_sticky.
+
+(* the calls of every px.AddTypes refer only to the context's loader and to type-set loaders that the same
+   px.AddTypes has created before (used by C12_addtypes_miss_not_sticky: these loaders all define into L) *)
+Theorem C12_addtypes_scoped :
+  forall auth ts, scoped 0 (compile auth ts) = true.
+Proof. exact compile_scoped. Qed.
+Print Assumptions C12_addtypes_scoped.
 
 (* Non-vacuity: a concrete well-formed configuration and history over a chain of depth 3 and a type-set
    loader below the static loader — a miss, a definition after the miss, equal and different
